@@ -256,7 +256,7 @@ async fn one_run(seed: u64, scenario: &str, pace: u64) {
     let (tx, mut rx) = mpsc::unbounded_channel();
     let random = scenario == "random";
     // root level
-    let (nra, nrs) = if random { (rng.below(3), rng.range(1, 3)) } else { (0, 1) };
+    let (nra, nrs) = if random { (rng.below(4), rng.range(1, 2)) } else { (0, 1) };
     let mut ractors = vec![];
     for _ in 0..nra {
         ractors.push(run.actor(None, None));
@@ -292,7 +292,7 @@ async fn one_run(seed: u64, scenario: &str, pace: u64) {
     let mut signalled = false;
     match scenario {
         "random" => {
-            let nops = rng.range(4, 14);
+            let nops = rng.range(5, 16);
             let sig_at = rng.below(nops + 3);
             for i in 0..nops {
                 if i == sig_at && !signalled {
@@ -303,12 +303,12 @@ async fn one_run(seed: u64, scenario: &str, pace: u64) {
                 let open: Vec<String> = run.handles.keys().filter(|s| !signalled && !run.is_closed(s)).cloned().collect();
                 let held: Vec<String> = run.handles.keys().cloned().collect();
                 match rng.below(10) {
-                    0..=3 if !open.is_empty() && run.nact < 16 => {
+                    0..=4 if !open.is_empty() && run.nact < 16 => {
                         let s = rng.pick(&open).clone();
                         let a = run.actor(None, None);
                         run.spawn_on(&s, a);
                     }
-                    4..=5 if !open.is_empty() => {
+                    5 if !open.is_empty() => {
                         let s = rng.pick(&open).clone();
                         if run.depth.get(&s).copied().unwrap_or(1) < 3 && run.nsup < 12 {
                             run.sub_on(&s).await;
